@@ -1,5 +1,838 @@
-//! C07 — not implemented yet.
+//! C07 — FFT/IFFT over every evaluation domain equal naive evaluation/interpolation; domain construction,
+//! elements, vanishing polynomial and Lagrange coefficients agree with their definitions.
+use ark_ff::{FftField, Field, One, PrimeField, Zero};
+use ark_poly::univariate::DensePolynomial;
+use ark_poly::{
+    EvaluationDomain, Evaluations, GeneralEvaluationDomain, MixedRadixEvaluationDomain, Polynomial,
+    Radix2EvaluationDomain,
+};
+use ark_std::rand::SeedableRng;
+use num_bigint::BigUint;
+use std::sync::Arc;
+use vh_core::engine::{no_panic, Obs, PropSpec, Rel, Tape, Tier, R};
+use vh_core::{ensure, ensure_eq};
+
+// ---------------------------------------------------------------------------------------------------------
+// kinds of domain and the brute-force size oracle
+// ---------------------------------------------------------------------------------------------------------
+
+#[derive(Clone, Copy, PartialEq, Eq, Debug)]
+enum Kind {
+    Radix2,
+    Mixed,
+    General,
+}
+
+impl Kind {
+    fn name(self) -> &'static str {
+        match self {
+            Kind::Radix2 => "radix2",
+            Kind::Mixed => "mixed",
+            Kind::General => "general",
+        }
+    }
+}
+
+trait DomKind<F: FftField>: EvaluationDomain<F> + Send + Sync + 'static {
+    const KIND: Kind;
+    /// true when the value is (a wrapper of) a radix-2 domain
+    fn is_radix2(&self) -> bool;
+}
+impl<F: FftField> DomKind<F> for Radix2EvaluationDomain<F> {
+    const KIND: Kind = Kind::Radix2;
+    fn is_radix2(&self) -> bool {
+        true
+    }
+}
+impl<F: FftField> DomKind<F> for MixedRadixEvaluationDomain<F> {
+    const KIND: Kind = Kind::Mixed;
+    fn is_radix2(&self) -> bool {
+        false
+    }
+}
+impl<F: FftField> DomKind<F> for GeneralEvaluationDomain<F> {
+    const KIND: Kind = Kind::General;
+    fn is_radix2(&self) -> bool {
+        matches!(self, GeneralEvaluationDomain::Radix2(_))
+    }
+}
+
+/// Subgroup structure of the field: s = v2(p-1) computed from the modulus; (q, k) as declared by the configuration.
+#[derive(Clone, Copy, Debug)]
+struct Info {
+    s: u32,
+    q: Option<u64>,
+    k: u32,
+}
+
+fn modulus_of<F: PrimeField>() -> BigUint {
+    F::MODULUS.into()
+}
+
+fn info_of<F: PrimeField>() -> Info {
+    let pm1 = modulus_of::<F>() - 1u32;
+    let s = pm1.trailing_zeros().unwrap_or(0) as u32;
+    Info { s, q: F::SMALL_SUBGROUP_BASE.map(u64::from), k: F::SMALL_SUBGROUP_BASE_ADICITY.unwrap_or(0) }
+}
+
+/// smallest 2^a >= n with a <= s
+fn best_radix2(info: &Info, n: u64) -> Option<u64> {
+    let mut best: Option<u128> = None;
+    for a in 0..=info.s.min(100) {
+        let x = 1u128 << a;
+        if x >= n as u128 && best.map_or(true, |b| x < b) {
+            best = Some(x);
+        }
+    }
+    best.and_then(|b| u64::try_from(b).ok())
+}
+
+/// smallest 2^a * q^b >= n with a <= s, b <= k (all pairs enumerated)
+fn best_mixed(info: &Info, n: u64) -> Option<u64> {
+    let q = info.q? as u128;
+    let mut best: Option<u128> = None;
+    let mut qb = 1u128;
+    for b in 0..=info.k {
+        if b > 0 {
+            qb = qb.checked_mul(q)?;
+        }
+        for a in 0..=info.s.min(64) {
+            let x = match qb.checked_mul(1u128 << a) {
+                Some(x) => x,
+                None => break,
+            };
+            if x >= n as u128 && best.map_or(true, |bb| x < bb) {
+                best = Some(x);
+            }
+        }
+    }
+    best.and_then(|b| u64::try_from(b).ok())
+}
+
+fn expected_size(kind: Kind, info: &Info, n: u64) -> Option<u64> {
+    match kind {
+        Kind::Radix2 => best_radix2(info, n),
+        Kind::Mixed => best_mixed(info, n),
+        // documented: "tries to build a radix-2 domain and falls back to a mixed-radix domain if the radix-2
+        // multiplicative subgroup is too small"
+        Kind::General => best_radix2(info, n).or_else(|| best_mixed(info, n)),
+    }
+}
+
+/// prime divisors of a domain size (sizes are 2^a q^b with q prime)
+fn prime_divisors(info: &Info, size: u64) -> Vec<u64> {
+    let mut v = Vec::new();
+    if size % 2 == 0 {
+        v.push(2);
+    }
+    if let Some(q) = info.q {
+        if q != 2 && size % q == 0 {
+            v.push(q);
+        }
+    }
+    v
+}
+
+/// (size, lowest n, highest n) for all sizes reachable with n <= max
+fn size_table(kind: Kind, info: &Info, max: u64) -> Vec<(u64, u64, u64)> {
+    let mut out: Vec<(u64, u64, u64)> = Vec::new();
+    for n in 0..=max {
+        match expected_size(kind, info, n) {
+            Some(s) if s <= max => match out.last_mut() {
+                Some(l) if l.0 == s => l.2 = n,
+                _ => out.push((s, n, n)),
+            },
+            _ => break,
+        }
+    }
+    out
+}
+
+// ---------------------------------------------------------------------------------------------------------
+// generators
+// ---------------------------------------------------------------------------------------------------------
+
+fn mix(x: u64) -> u64 {
+    let mut z = x.wrapping_add(0x9e3779b97f4a7c15);
+    z = (z ^ (z >> 30)).wrapping_mul(0xbf58476d1ce4e5b9);
+    z = (z ^ (z >> 27)).wrapping_mul(0x94d049bb133111eb);
+    z ^ (z >> 31)
+}
+
+/// field element number `i` of the stream expanded from the tape word `seed` (pure function of the tape)
+fn stream_felt<F: PrimeField>(seed: u64, i: u64) -> F {
+    let nb = (F::MODULUS_BIT_SIZE as usize + 7) / 8 + 8;
+    let mut bytes = Vec::with_capacity(nb + 8);
+    let mut x = mix(seed ^ mix(i.wrapping_mul(0xa24baed4963ee407)));
+    while bytes.len() < nb {
+        x = mix(x);
+        bytes.extend_from_slice(&x.to_le_bytes());
+    }
+    bytes.truncate(nb);
+    F::from_le_bytes_mod_order(&bytes)
+}
+
+/// edge-biased field element decoded from the tape
+fn felt<F: PrimeField>(t: &mut Tape<'_>) -> F {
+    match t.weighted(&[2, 2, 2, 3, 6]) {
+        0 => F::zero(),
+        1 => F::one(),
+        2 => -F::one(),
+        3 => F::from(t.below(16)),
+        _ => {
+            let s = t.u64();
+            stream_felt::<F>(s, 0)
+        },
+    }
+}
+
+fn felt_nonzero<F: PrimeField>(t: &mut Tape<'_>) -> F {
+    let x = felt::<F>(t);
+    if x.is_zero() {
+        F::from(2u64)
+    } else {
+        x
+    }
+}
+
+/// vector of `len` field elements: a mode, a stream seed, and up to 6 tape-decoded edge values in front
+fn vector<F: PrimeField>(t: &mut Tape<'_>, len: usize) -> (Vec<F>, &'static str) {
+    let mode = t.weighted(&[5, 3, 2, 1, 2]);
+    let seed = t.u64();
+    let mut v: Vec<F> = Vec::with_capacity(len);
+    let name = match mode {
+        0 => {
+            for i in 0..len {
+                v.push(stream_felt::<F>(seed, i as u64));
+            }
+            "vec=uniform"
+        },
+        1 => {
+            for i in 0..len {
+                let z = mix(seed ^ (i as u64).wrapping_mul(0x51ed27)) & 1 == 0;
+                v.push(if z { F::zero() } else { stream_felt::<F>(seed, i as u64) });
+            }
+            "vec=half-zero"
+        },
+        2 => {
+            v.resize(len, F::zero());
+            if len > 0 {
+                let j = if t.bool() { len - 1 } else { t.idx(len) };
+                v[j] = F::one();
+            }
+            "vec=monomial"
+        },
+        3 => {
+            v.resize(len, F::one());
+            "vec=ones"
+        },
+        _ => {
+            for i in 0..len {
+                let x = match mix(seed ^ (i as u64)) % 4 {
+                    0 => F::zero(),
+                    1 => F::one(),
+                    2 => -F::one(),
+                    _ => F::from(mix(seed.wrapping_add(i as u64)) % 7),
+                };
+                v.push(x);
+            }
+            "vec=small-values"
+        },
+    };
+    if mode != 2 && t.bool() {
+        for x in v.iter_mut().take(6) {
+            *x = felt::<F>(t);
+        }
+    }
+    (v, name)
+}
+
+fn horner<F: Field>(c: &[F], x: &F) -> F {
+    let mut acc = F::zero();
+    for a in c.iter().rev() {
+        acc *= x;
+        acc += a;
+    }
+    acc
+}
+
+/// h, h g, h g^2, ... by repeated multiplication
+fn chain<F: Field>(h: F, g: F, n: usize) -> Vec<F> {
+    let mut v = Vec::with_capacity(n);
+    let mut x = h;
+    for _ in 0..n {
+        v.push(x);
+        x *= g;
+    }
+    v
+}
+
+fn first_diff<F: PartialEq>(a: &[F], b: &[F]) -> Option<usize> {
+    if a.len() != b.len() {
+        return Some(a.len().min(b.len()));
+    }
+    (0..a.len()).find(|i| a[*i] != b[*i])
+}
+
+fn short<F: std::fmt::Display>(v: &[F]) -> String {
+    let mut s = String::from("[");
+    for (i, x) in v.iter().enumerate().take(6) {
+        if i > 0 {
+            s.push_str(", ");
+        }
+        s.push_str(&x.to_string());
+    }
+    if v.len() > 6 {
+        s.push_str(&format!(", … ({} entries)", v.len()));
+    }
+    s.push(']');
+    s
+}
+
+macro_rules! ensure_vec_eq {
+    ($got:expr, $want:expr, $sig:expr, $ctx:expr) => {{
+        let (g, w) = (&$got, &$want);
+        if let Some(i) = first_diff(g, w) {
+            return Err(vh_core::Fail {
+                sig: ($sig).to_string(),
+                msg: format!(
+                    "{}: lengths {} / {}; first difference at index {}: got {} expected {}; {}",
+                    $sig,
+                    g.len(),
+                    w.len(),
+                    i,
+                    g.get(i).map(|x| x.to_string()).unwrap_or("<none>".into()),
+                    w.get(i).map(|x| x.to_string()).unwrap_or("<none>".into()),
+                    $ctx
+                ),
+            });
+        }
+    }};
+}
+
+struct Cfg {
+    field: String,
+    info: Info,
+    /// sizes reachable by the fft relations: (size, n_lo, n_hi)
+    table: Vec<(u64, u64, u64)>,
+    /// sizes reachable by the O(n^2)-per-point relations (Lagrange)
+    table_small: Vec<(u64, u64, u64)>,
+    /// exhaustive bound of the construction relation
+    bound: u64,
+}
+
+/// choose a constructible domain (through a requested size n that rounds up to it) and a coset of it
+fn pick_domain<F: PrimeField, D: DomKind<F>>(
+    cfg: &Cfg,
+    table: &[(u64, u64, u64)],
+    t: &mut Tape<'_>,
+    o: &mut Obs,
+) -> Result<(D, D, u64, F, &'static str), vh_core::Fail> {
+    let (size, lo, hi) = table[t.idx(table.len())];
+    let n = match t.weighted(&[3, 2, 2]) {
+        0 => hi,
+        1 => lo,
+        _ => lo + t.below(hi - lo + 1),
+    };
+    let d0 = match no_panic("new", || D::new(n as usize))? {
+        Some(d) => d,
+        None => return Err(vh_core::Fail { sig: "new.none".into(), msg: format!("{}::new({}) = None, expected a domain of size {}", D::KIND.name(), n, size) }),
+    };
+    ensure_eq!(d0.size() as u64, size, "new.size", "{}::new({})", D::KIND.name(), n);
+    let (h, hc, plain) = match t.weighted(&[3, 2, 2, 2]) {
+        0 => (F::one(), "offset=1", t.bool()),
+        1 => (F::GENERATOR, "offset=GENERATOR", false),
+        2 => (felt_nonzero::<F>(t), "offset=tape", false),
+        _ => {
+            let j = if size > 1 { 1 + t.below(size - 1) } else { 0 };
+            (d0.group_gen().pow([j]), "offset=in-subgroup", false)
+        },
+    };
+    let d = if plain {
+        d0
+    } else {
+        match no_panic("get_coset", || d0.get_coset(h))? {
+            Some(d) => d,
+            None => return Err(vh_core::Fail { sig: "get_coset.none".into(), msg: format!("get_coset({}) = None", h) }),
+        }
+    };
+    o.class(hc);
+    o.class_if(!h.is_one(), "coset");
+    o.class_if(size >= 256, "size>=256 (root compaction)");
+    o.class_if(!d.is_radix2(), "mixed-radix implementation");
+    if let Some(q) = cfg.info.q {
+        o.class_if(size % q == 0, "mixed radix with b>=1");
+        o.class_if(size % q == 0 && size % 2 == 0, "mixed radix with a>=1 and b>=1");
+    }
+    Ok((d0, d, n, h, hc))
+}
+
+// ---------------------------------------------------------------------------------------------------------
+// relations
+// ---------------------------------------------------------------------------------------------------------
+
+/// `new(n)`, `compute_size_of_domain(n)`, generator order, inverses, elements
+fn construct_rel<F: PrimeField, D: DomKind<F>>(cfg: &Cfg, t: &mut Tape<'_>, o: &mut Obs) -> R {
+    let info = &cfg.info;
+    let kind = D::KIND;
+    let (n, nclass) = match t.below(4) {
+        0 => (t.below(cfg.bound + 1), "n<=bound"),
+        1 => {
+            // around a lattice point 2^a q^b (also beyond the field's bounds)
+            let a = t.below(info.s.min(40) as u64 + 3) as u32;
+            let b = t.below(info.k as u64 + 2) as u32;
+            let q = info.q.unwrap_or(3) as u128;
+            let x = (1u128 << a).saturating_mul(q.pow(b)).min(1u128 << 61) as u64;
+            let n = match t.below(3) {
+                0 => x,
+                1 => x.saturating_sub(1),
+                _ => x + 1,
+            };
+            (n, "n~lattice")
+        },
+        2 => {
+            let a = t.below(62);
+            let x = 1u64 << a;
+            let n = match t.below(3) {
+                0 => x,
+                1 => x - 1,
+                _ => x + 1,
+            };
+            (n, "n~2^a")
+        },
+        _ => (t.u64() >> (2 + t.below(60)), "n=uniform-bits"),
+    };
+    o.class(nclass);
+    let want = expected_size(kind, info, n);
+    o.show(|| format!("{} {}::new({}) expected size {:?}", cfg.field, kind.name(), n, want));
+    o.nt(n >= 2);
+    o.class_if(want.is_none(), "construction fails");
+    let got = no_panic("new", || D::new(n as usize))?;
+    let csd = no_panic("compute_size_of_domain", || D::compute_size_of_domain(n as usize))?;
+    ensure_eq!(csd.map(|x| x as u64), want, "compute_size_of_domain", "n={}", n);
+    let d = match (got, want) {
+        (None, None) => return Ok(()),
+        (None, Some(w)) => return vh_core::fail("new.none", format!("{}::new({}) = None but a subgroup of size {} exists", kind.name(), n, w)),
+        (Some(d), None) => return vh_core::fail("new.some", format!("{}::new({}) returned size {} but no such subgroup exists", kind.name(), n, d.size())),
+        (Some(d), Some(w)) => {
+            ensure!(d.size() as u64 >= n, "new.too-small", "size {} < requested {}", d.size(), n);
+            ensure_eq!(d.size() as u64, w, "new.size", "{}::new({}) is not the minimal size of its kind", kind.name(), n);
+            d
+        },
+    };
+    let size = d.size() as u64;
+    o.evals(10);
+    if kind == Kind::General {
+        ensure_eq!(d.is_radix2(), best_radix2(info, n).is_some(), "general.variant");
+    }
+    o.class_if(!d.is_radix2(), "mixed-radix implementation");
+    let g = d.group_gen();
+    ensure!(g.pow([size]).is_one(), "group_gen.order", "group_gen^{} != 1", size);
+    for l in prime_divisors(info, size) {
+        ensure!(!g.pow([size / l]).is_one(), "group_gen.order", "group_gen^({}/{}) = 1: order is smaller than the size", size, l);
+    }
+    ensure!((g * d.group_gen_inv()).is_one(), "group_gen_inv", "group_gen * group_gen_inv != 1");
+    let sf = F::from(size);
+    ensure_eq!(d.size_as_field_element(), sf, "size_as_field_element");
+    ensure!((sf * d.size_inv()).is_one(), "size_inv", "size * size_inv != 1");
+    if size.is_power_of_two() {
+        ensure_eq!(d.log_size_of_group(), size.trailing_zeros() as u64, "log_size_of_group");
+    }
+    ensure!(d.coset_offset().is_one() && d.coset_offset_inv().is_one() && d.coset_offset_pow_size().is_one(), "new.offset", "a fresh domain must have offset 1");
+    if size <= 2 * cfg.bound.max(64) {
+        let want = chain(F::one(), g, size as usize);
+        let got: Vec<F> = d.elements().collect();
+        ensure_vec_eq!(got, want, "elements", format!("size {}", size));
+        for (i, w) in want.iter().enumerate() {
+            ensure!(d.element(i) == *w, "element", "element({}) = {} expected {}", i, d.element(i), w);
+        }
+        o.evals(2 * size);
+    } else {
+        // large domain: spot checks
+        let i = t.below(size);
+        let j = t.below(size);
+        let (ei, ej) = (d.element(i as usize), d.element(j as usize));
+        ensure!(ei * ej == d.element(((i as u128 + j as u128) % size as u128) as usize), "element", "element({})*element({}) != element(i+j mod size)", i, j);
+        ensure!((d.element((size - 1) as usize) * g).is_one(), "element", "element(size-1)*g != 1");
+        ensure!(d.element(0).is_one() && d.element(1) == g, "element", "element(0), element(1)");
+        let mut it = d.elements();
+        ensure!(it.next() == Some(F::one()) && it.next() == Some(g), "elements", "first two elements");
+    }
+    Ok(())
+}
+
+fn len_class(t: &mut Tape<'_>, size: usize) -> usize {
+    let q = size / 4;
+    match t.weighted(&[1, 1, 3, 2, 2, 1, 1, 1, 1, 3, 2]) {
+        0 => 0,
+        1 => 1.min(size),
+        2 => size,
+        3 => q,
+        4 => (q + 1).min(size),
+        5 => (size / 2).saturating_sub(1),
+        6 => size / 2,
+        7 => (size / 2 + 1).min(size),
+        8 => size.saturating_sub(1),
+        9 => t.below(size as u64 + 1) as usize,
+        _ => t.below(q as u64 + 1) as usize,
+    }
+}
+
+/// forward transform = Horner at every element; inverse transform returns the coefficients
+fn fft_rel<F: PrimeField, D: DomKind<F>>(cfg: &Cfg, t: &mut Tape<'_>, o: &mut Obs) -> R {
+    let (_d0, d, n, h, hc) = pick_domain::<F, D>(cfg, &cfg.table, t, o)?;
+    let size = d.size();
+    let len = len_class(t, size);
+    let (c, vc) = vector::<F>(t, len);
+    o.show(|| format!("{} {}::new({}) size {} {} (h={}) len {} {} c={}", cfg.field, D::KIND.name(), n, size, hc, h, len, vc, short(&c)));
+    let nonzero = c.iter().any(|x| !x.is_zero());
+    o.nt(size >= 4 && len >= 1 && nonzero);
+    o.class(vc);
+    let aware = d.is_radix2() && len * 4 <= size;
+    o.class_if(aware, "degree-aware path");
+    o.class_if(aware && len >= 2, "degree-aware path, len>=2");
+    o.class_if(d.is_radix2() && len * 4 > size && len < size, "full path, padded");
+    o.class_if(len == size, "len=size");
+    o.class_if(len == 0, "len=0");
+    let ctx = format!("size {} {} len {}", size, hc, len);
+    let elems = chain(h, d.group_gen(), size);
+    let want: Vec<F> = elems.iter().map(|x| horner(&c, x)).collect();
+    o.evals(size as u64 + 4);
+    let got = no_panic("fft", || d.fft(&c))?;
+    ensure_vec_eq!(got, want, "fft", ctx);
+    let mut v = c.clone();
+    no_panic("fft_in_place", || d.fft_in_place(&mut v))?;
+    ensure_vec_eq!(v, want, "fft_in_place", ctx);
+    let mut padded = c.clone();
+    padded.resize(size, F::zero());
+    let back = no_panic("ifft", || d.ifft(&got))?;
+    ensure_vec_eq!(back, padded, "ifft.roundtrip", ctx);
+    no_panic("ifft_in_place", || d.ifft_in_place(&mut v))?;
+    ensure_vec_eq!(v, padded, "ifft_in_place.roundtrip", ctx);
+    // distribute_powers: c_i * g^i, distribute_powers_and_mul_by_const: k * c_i * g^i
+    let k = felt::<F>(t);
+    let mut hp = F::one();
+    let mut want_dp = Vec::with_capacity(len);
+    for x in &c {
+        want_dp.push(*x * hp);
+        hp *= h;
+    }
+    let mut v = c.clone();
+    no_panic("distribute_powers", || D::distribute_powers(&mut v, h))?;
+    ensure_vec_eq!(v, want_dp, "distribute_powers", ctx);
+    let mut v = c.clone();
+    no_panic("distribute_powers_and_mul_by_const", || D::distribute_powers_and_mul_by_const(&mut v, h, k))?;
+    let want_dpk: Vec<F> = want_dp.iter().map(|x| *x * k).collect();
+    ensure_vec_eq!(v, want_dpk, "distribute_powers_and_mul_by_const", ctx);
+    // Evaluations::interpolate
+    let mut canon = c.clone();
+    while canon.last().map_or(false, |x| x.is_zero()) {
+        canon.pop();
+    }
+    let ev = Evaluations::from_vec_and_domain(got.clone(), d);
+    let p = no_panic("interpolate_by_ref", || ev.interpolate_by_ref())?;
+    ensure_vec_eq!(p.coeffs, canon, "interpolate_by_ref", ctx);
+    let p = no_panic("interpolate", || ev.interpolate())?;
+    ensure_vec_eq!(p.coeffs, canon, "interpolate", ctx);
+    Ok(())
+}
+
+/// the inverse transform of arbitrary values interpolates them
+fn ifft_rel<F: PrimeField, D: DomKind<F>>(cfg: &Cfg, t: &mut Tape<'_>, o: &mut Obs) -> R {
+    let (_d0, d, n, h, hc) = pick_domain::<F, D>(cfg, &cfg.table, t, o)?;
+    let size = d.size();
+    let (e, vc) = vector::<F>(t, size);
+    o.show(|| format!("{} {}::new({}) size {} {} (h={}) {} evals={}", cfg.field, D::KIND.name(), n, size, hc, h, vc, short(&e)));
+    o.nt(size >= 4 && e.iter().any(|x| !x.is_zero()));
+    o.class(vc);
+    let ctx = format!("size {} {}", size, hc);
+    let p = no_panic("ifft", || d.ifft(&e))?;
+    ensure_eq!(p.len(), size, "ifft.len");
+    let elems = chain(h, d.group_gen(), size);
+    o.evals(size as u64 + 2);
+    let vals: Vec<F> = elems.iter().map(|x| horner(&p, x)).collect();
+    ensure_vec_eq!(vals, e, "ifft.interpolates", ctx);
+    let mut v = e.clone();
+    no_panic("ifft_in_place", || d.ifft_in_place(&mut v))?;
+    ensure_vec_eq!(v, p, "ifft_in_place", ctx);
+    let f = no_panic("fft", || d.fft(&p))?;
+    ensure_vec_eq!(f, e, "fft.of-ifft", ctx);
+    let q = no_panic("interpolate", || Evaluations::from_vec_and_domain(e.clone(), d).interpolate())?;
+    let mut canon = p.clone();
+    while canon.last().map_or(false, |x| x.is_zero()) {
+        canon.pop();
+    }
+    ensure_vec_eq!(q.coeffs, canon, "interpolate", ctx);
+    Ok(())
+}
+
+/// coset accessors, elements, vanishing polynomial, Lagrange coefficients against the product definitions
+fn vanish_lagrange_rel<F: PrimeField, D: DomKind<F>>(cfg: &Cfg, t: &mut Tape<'_>, o: &mut Obs) -> R {
+    let (d0, d, n, h, hc) = pick_domain::<F, D>(cfg, &cfg.table_small, t, o)?;
+    let size = d.size();
+    let g = d0.group_gen();
+    let elems = chain(h, g, size);
+    let (tau, tc) = match t.weighted(&[3, 1, 1, 4, 1, 2, 1]) {
+        0 => (felt::<F>(t), "tau=tape"),
+        1 => (F::zero(), "tau=0"),
+        2 => (F::one(), "tau=1"),
+        3 => (elems[t.idx(size)], "tau=domain element"),
+        4 => (h, "tau=offset"),
+        5 => (g.pow([t.below(size as u64)]), "tau=subgroup element"),
+        _ => (-elems[t.idx(size)], "tau=-(domain element)"),
+    };
+    let pos = elems.iter().position(|x| *x == tau);
+    o.show(|| format!("{} {}::new({}) size {} {} (h={}) {} tau={} (index in domain: {:?})", cfg.field, D::KIND.name(), n, size, hc, h, tc, tau, pos));
+    o.nt(size >= 4);
+    o.class(tc);
+    o.class_if(pos.is_some(), "tau in the domain");
+    o.class_if(pos.is_some() && !h.is_one(), "tau in a coset domain");
+    o.evals(size as u64 + 12);
+    // coset accessors
+    ensure_eq!(d.size(), d0.size(), "coset.size");
+    ensure_eq!(d.group_gen(), g, "coset.group_gen");
+    ensure_eq!(d.group_gen_inv(), d0.group_gen_inv(), "coset.group_gen_inv");
+    ensure_eq!(d.size_inv(), d0.size_inv(), "coset.size_inv");
+    ensure_eq!(d.coset_offset(), h, "coset_offset");
+    ensure!((d.coset_offset_inv() * h).is_one(), "coset_offset_inv", "offset * coset_offset_inv != 1 for offset {}", h);
+    let mut hn = F::one();
+    for _ in 0..size {
+        hn *= h;
+    }
+    ensure_eq!(d.coset_offset_pow_size(), hn, "coset_offset_pow_size");
+    ensure!(d0.get_coset(F::zero()).is_none(), "get_coset.zero", "get_coset(0) must fail: 0 has no inverse");
+    let nc = no_panic("new_coset", || D::new_coset(n as usize, h))?;
+    ensure!(nc == d0.get_coset(h), "new_coset", "new_coset(n, h) != new(n).get_coset(h)");
+    // elements
+    let got: Vec<F> = d.elements().collect();
+    ensure_vec_eq!(got, elems, "coset.elements", format!("size {} {}", size, hc));
+    for (i, w) in elems.iter().enumerate() {
+        ensure!(d.element(i) == *w, "coset.element", "element({}) = {} expected {}", i, d.element(i), w);
+    }
+    // vanishing polynomial
+    let mut z = F::one();
+    for e in &elems {
+        z *= tau - e;
+    }
+    let zv = no_panic("evaluate_vanishing_polynomial", || d.evaluate_vanishing_polynomial(tau))?;
+    ensure_eq!(zv, z, "evaluate_vanishing_polynomial", "size {} {} {}", size, hc, tc);
+    let vp = no_panic("vanishing_polynomial", || d.vanishing_polynomial())?;
+    ensure_eq!(vp.degree(), size, "vanishing_polynomial.degree");
+    ensure_eq!(vp.evaluate(&tau), z, "vanishing_polynomial.evaluate", "size {} {} {}", size, hc, tc);
+    let vd: DensePolynomial<F> = vp.into();
+    ensure_eq!(horner(&vd.coeffs, &tau), z, "vanishing_polynomial.coeffs");
+    // Lagrange coefficients: L_i(tau) = prod_{j != i} (tau - e_j) / (e_i - e_j)
+    let lag = no_panic("evaluate_all_lagrange_coefficients", || d.evaluate_all_lagrange_coefficients(tau))?;
+    ensure_eq!(lag.len(), size, "lagrange.len");
+    for i in 0..size {
+        let mut num = F::one();
+        let mut den = F::one();
+        for j in 0..size {
+            if j != i {
+                num *= tau - elems[j];
+                den *= elems[i] - elems[j];
+            }
+        }
+        let want = num * den.inverse().expect("domain elements are distinct");
+        ensure!(lag[i] == want, "lagrange", "L_{}({}) = {} expected {}; size {} {} {}", i, tau, lag[i], want, size, hc, tc);
+    }
+    // an element outside the domain (rejection sampling inside arkworks; seeded from the tape)
+    if (size as u64) < 64 || cfg.info.s > 8 || modulus_of::<F>() > BigUint::from(1u64 << 20) {
+        let mut rng = ark_std::rand::rngs::StdRng::seed_from_u64(t.u64());
+        let x = no_panic("sample_element_outside_domain", || d.sample_element_outside_domain(&mut rng))?;
+        ensure!(!elems.contains(&x), "sample_element_outside_domain", "{} is in the domain", x);
+    }
+    Ok(())
+}
+
+/// `get_root_of_unity(n)`: exact order or None; the configured constants
+fn root_rel<F: PrimeField>(cfg: &Cfg, t: &mut Tape<'_>, o: &mut Obs) -> R {
+    let info = &cfg.info;
+    let q = info.q;
+    let n: u64 = match t.below(3) {
+        0 => t.below(cfg.bound + 1),
+        1 => {
+            let a = t.below(info.s.min(50) as u64 + 3) as u32;
+            let b = t.below(info.k as u64 + 3) as u32;
+            let qq = q.unwrap_or(3) as u128;
+            let x = (1u128 << a).saturating_mul(qq.pow(b));
+            let x = match t.below(4) {
+                0 => x.saturating_mul([3u128, 5, 7, 11][t.idx(4)]),
+                _ => x,
+            };
+            x.min(1u128 << 61) as u64
+        },
+        _ => t.u64() >> (3 + t.below(59)),
+    };
+    // is n = 2^a q^b with a <= s, b <= k (b = 0 when no small subgroup is declared)?
+    let mut m = n;
+    let mut a = 0u32;
+    let mut b = 0u32;
+    if n > 0 {
+        while m % 2 == 0 {
+            m /= 2;
+            a += 1;
+        }
+        if let Some(q) = q {
+            while m % q == 0 {
+                m /= q;
+                b += 1;
+            }
+        }
+    }
+    let exists = n > 0 && m == 1 && a <= info.s && b <= info.k;
+    o.show(|| format!("{} get_root_of_unity({}) [2^{} q^{} * {}] expected {}", cfg.field, n, a, b, m, if exists { "Some" } else { "None" }));
+    o.nt(n >= 2);
+    o.class_if(exists, "root exists");
+    o.class_if(exists && b > 0, "root of mixed order");
+    let r = no_panic("get_root_of_unity", || F::get_root_of_unity(n))?;
+    match r {
+        None => ensure!(!exists, "get_root_of_unity.none", "get_root_of_unity({}) = None but the field has a subgroup of that order", n),
+        Some(w) => {
+            ensure!(exists, "get_root_of_unity.some", "get_root_of_unity({}) = Some({}) but no subgroup of that order is declared", n, w);
+            ensure!(w.pow([n]).is_one(), "get_root_of_unity.order", "w^{} != 1", n);
+            for l in prime_divisors(info, n) {
+                ensure!(!w.pow([n / l]).is_one(), "get_root_of_unity.order", "w^({}/{}) = 1", n, l);
+            }
+        },
+    }
+    // constants of the configuration
+    ensure_eq!(F::TWO_ADICITY, info.s, "TWO_ADICITY");
+    let w = F::TWO_ADIC_ROOT_OF_UNITY;
+    let mut x = w;
+    for _ in 1..info.s.max(1) {
+        x.square_in_place();
+    }
+    if info.s >= 1 {
+        ensure!(x == -F::one(), "TWO_ADIC_ROOT_OF_UNITY", "order is not exactly 2^s");
+    } else {
+        ensure!(w.is_one(), "TWO_ADIC_ROOT_OF_UNITY", "s = 0");
+    }
+    if let (Some(q), Some(l)) = (q, F::LARGE_SUBGROUP_ROOT_OF_UNITY) {
+        let pm1 = modulus_of::<F>() - 1u32;
+        let qk = BigUint::from(q).pow(info.k);
+        ensure!((&pm1 % &qk).is_zero(), "SMALL_SUBGROUP", "q^k does not divide p-1");
+        let ord = qk * (BigUint::one() << info.s as usize);
+        let e = |d: u64| (&ord / BigUint::from(d)).to_u64_digits();
+        ensure!(l.pow(ord.to_u64_digits()).is_one(), "LARGE_SUBGROUP_ROOT_OF_UNITY", "l^(2^s q^k) != 1");
+        if info.s >= 1 {
+            ensure!(!l.pow(e(2)).is_one(), "LARGE_SUBGROUP_ROOT_OF_UNITY", "order misses a factor 2");
+        }
+        if info.k >= 1 {
+            ensure!(!l.pow(e(q)).is_one(), "LARGE_SUBGROUP_ROOT_OF_UNITY", "order misses a factor q");
+        }
+    }
+    Ok(())
+}
+
+// ---------------------------------------------------------------------------------------------------------
+// registration
+// ---------------------------------------------------------------------------------------------------------
+
+fn kind_rels<F: PrimeField, D: DomKind<F>>(out: &mut Vec<Rel>, field: &str, tier: Tier, max: u64, small: u64, bound: u64, weight: u32) {
+    let info = info_of::<F>();
+    let kind = D::KIND;
+    let cfg = Arc::new(Cfg {
+        field: field.to_string(),
+        info,
+        table: size_table(kind, &info, max),
+        table_small: size_table(kind, &info, small),
+        bound,
+    });
+    assert!(!cfg.table.is_empty());
+    let nm = |r: &str| format!("{}/{}.{}", r, field, kind.name());
+    let q = |n: u32| (tier.pick(n, n * 12) * weight / 4).max(20);
+    let c = cfg.clone();
+    let b = bound;
+    out.push(
+        Rel::new(nm("construct"), q(240), 12, move |t, o| construct_rel::<F, D>(&c, t, o))
+            .exhaustive(move || Box::new((0..=b).map(|n| vec![0u64, n, n, n, 0, 0]))),
+    );
+    let c = cfg.clone();
+    out.push(Rel::new(nm("fft"), q(320), 160, move |t, o| fft_rel::<F, D>(&c, t, o)).shrink_iters(600));
+    let c = cfg.clone();
+    out.push(Rel::new(nm("ifft"), q(160), 160, move |t, o| ifft_rel::<F, D>(&c, t, o)).shrink_iters(600));
+    let c = cfg.clone();
+    out.push(Rel::new(nm("vanish-lagrange"), q(200), 48, move |t, o| vanish_lagrange_rel::<F, D>(&c, t, o)).shrink_iters(600));
+}
+
+fn root_rels<F: PrimeField>(out: &mut Vec<Rel>, field: &str, tier: Tier, bound: u64) {
+    let info = info_of::<F>();
+    let cfg = Arc::new(Cfg { field: field.to_string(), info, table: vec![], table_small: vec![], bound });
+    let c = cfg.clone();
+    let b = bound;
+    out.push(
+        Rel::new(format!("root-of-unity/{}", field), tier.pick(400, 4000), 8, move |t, o| root_rel::<F>(&c, t, o))
+            .exhaustive(move || Box::new((0..=b).map(|n| vec![0u64, n]))),
+    );
+}
+
+/// limits for a field: (largest size of the fft relations, of the Lagrange relation, exhaustive bound for new(n))
+fn limits<F: PrimeField>(tier: Tier) -> (u64, u64, u64) {
+    let limbs = (F::MODULUS_BIT_SIZE as u64 + 63) / 64;
+    match limbs {
+        1 => (tier.pick(1024, 8192), tier.pick(128, 512), tier.pick(1100, 8200)),
+        2..=4 => (tier.pick(1024, 2048), tier.pick(128, 256), tier.pick(1100, 4100)),
+        5..=6 => (tier.pick(512, 2048), tier.pick(64, 256), tier.pick(1100, 4100)),
+        _ => (tier.pick(256, 1024), tier.pick(32, 128), tier.pick(600, 4100)),
+    }
+}
+
+fn relations(tier: Tier) -> Vec<Rel> {
+    let mut out = Vec::new();
+    // fields without a declared small subgroup: MixedRadixEvaluationDomain is documented to work "only for fields that
+    // have ... another small subgroup over a different base defined" and is not instantiated for them
+    macro_rules! radix2_field {
+        ($f:ty, $name:expr, $w:expr) => {{
+            let (max, small, bound) = limits::<$f>(tier);
+            kind_rels::<$f, Radix2EvaluationDomain<$f>>(&mut out, $name, tier, max, small, bound, $w);
+            kind_rels::<$f, GeneralEvaluationDomain<$f>>(&mut out, $name, tier, max, small, bound, $w);
+            root_rels::<$f>(&mut out, $name, tier, bound);
+        }};
+    }
+    macro_rules! mixed_field {
+        ($f:ty, $name:expr, $w:expr) => {{
+            let (max, small, bound) = limits::<$f>(tier);
+            kind_rels::<$f, Radix2EvaluationDomain<$f>>(&mut out, $name, tier, max, small, bound, $w);
+            kind_rels::<$f, MixedRadixEvaluationDomain<$f>>(&mut out, $name, tier, max, small, bound, $w);
+            kind_rels::<$f, GeneralEvaluationDomain<$f>>(&mut out, $name, tier, max, small, bound, $w);
+            root_rels::<$f>(&mut out, $name, tier, bound);
+        }};
+    }
+    use vh_core::zoo;
+    mixed_field!(ark_test_curves::bls12_381::Fr, "test.bls12_381.Fr", 4);
+    radix2_field!(zoo::Gold, "Gold", 4);
+    radix2_field!(zoo::A5, "A5", 4);
+    radix2_field!(zoo::A1, "A1", 2);
+    radix2_field!(zoo::T17, "T17", 4);
+    radix2_field!(zoo::T65537, "T65537", 4);
+    mixed_field!(zoo::X3_2, "X3_2", 4);
+    mixed_field!(zoo::X4_3, "X4_3", 4);
+    mixed_field!(zoo::X5_1, "X5_1", 4);
+    mixed_field!(zoo::X2_4, "X2_4", 4);
+    mixed_field!(zoo::Y3_2, "Y3_2", 4);
+    mixed_field!(ark_test_curves::bn384_small_two_adicity::Fq, "test.bn384.Fq", 3);
+    mixed_field!(ark_test_curves::bn384_small_two_adicity::Fr, "test.bn384.Fr", 3);
+    mixed_field!(ark_mnt4_298::Fq, "mnt4_298.Fq", 3);
+    mixed_field!(ark_test_curves::mnt4_753::Fr, "test.mnt4_753.Fr", 2);
+    mixed_field!(ark_secp256k1::Fq, "secp256k1.Fq", 2);
+    mixed_field!(ark_secp256k1::Fr, "secp256k1.Fr", 3);
+    mixed_field!(ark_curve25519::Fq, "curve25519.Fq", 2);
+    mixed_field!(ark_bn254::Fr, "bn254.Fr", 3);
+    mixed_field!(ark_bls12_381::Fq, "bls12_381.Fq", 2);
+    out
+}
+
 fn main() {
-    eprintln!("C07: check not implemented");
-    std::process::exit(2);
+    vh_core::engine::main(PropSpec {
+        id: "C07",
+        rule: "A case is a domain kind (Radix2 / MixedRadix / General) over one of 20 fields (BLS12-381 Fr, Goldilocks, toy fields of two-adicity 1, 4, 5, 16, five toy mixed-radix fields whose whole {2^a q^b} lattice is walked, and the shipped fields that declare a small subgroup), a requested size n that rounds up to a constructible size (every n in 0..=bound is also enumerated for new(n)), a coset offset in {1, GENERATOR, tape-chosen, an element of the subgroup}, a coefficient/evaluation vector (uniform, half zero, monomial, all ones, small values, edge values in front) whose length is drawn around the degree-aware threshold (size/4, size/4+1), size/2±1, 0, 1, size-1, size, or an evaluation point (tape, 0, 1, a domain element, the offset, a subgroup element). Oracles: Horner evaluation at h·g^i (g^i by repeated multiplication), product definitions of the vanishing polynomial and of the Lagrange coefficients, brute-force minimal size over all (a,b), exact element order. Non-trivial: size >= 4 and 1 <= len <= size with a non-zero entry (transforms); size >= 4 (vanishing/Lagrange); n >= 2 (construction, roots). distinct = distinct decoded choice sequences.",
+        assumptions: &[
+            "prime-field arithmetic (+, *, inverse, pow) is correct (C01)",
+            "the declared SMALL_SUBGROUP_BASE is prime (3, 5, 7 in all configurations used)",
+            "MixedRadixEvaluationDomain over a field without a declared small subgroup is outside the documented domain (its new() panics on an unwrap) and is not generated; fft inputs longer than the domain are not generated",
+            "vectors longer than 6 entries are expanded from one tape word by a fixed mixing function (pure function of the tape)",
+        ],
+        relations,
+    })
 }
